@@ -437,6 +437,69 @@ def run_explicit(ctx, idx, rng, tmp):
     return case, kind in ("superset", "permutation", "random")
 
 
+def run_registry(ctx, idx, rng, tmp):
+    """Precedence of stored features under a changing feature registry: referrer and origin
+    both store a user-defined feature (different values); the referrer is opened and read
+    while that feature is not registered (another one is), then the registrations are
+    exchanged - the data stored in the referrer itself must be served, not the basin's."""
+    import dclab
+    from dclab.rtdc_dataset import feat_temp
+    import dclab.definitions as dfn
+    fx, fy = f"vmon_c07x{idx % 7}", f"vmon_c07y{idx % 7}"
+    for f in (fx, fy):
+        if dfn.scalar_feature_exists(f):
+            feat_temp.deregister_temporary_feature(f)
+    n1 = int(rng.integers(3, 20))
+    rid = f"mid-r{idx:05d}"
+    dclab.register_temporary_feature(fx)
+    try:
+        o1 = write_origin(tmp / "o1.rtdc", 1, n1, rng, rid)
+        import h5py
+        with h5py.File(tmp / "o1.rtdc", "a") as h5:
+            h5["events"].create_dataset(fx, data=5e5 + np.arange(n1, dtype=float))
+        kind, bmap = gen_map(rng, n1)
+        nref = len(bmap)
+        from vmon.gen import dataset as gd
+        meta = gd.complete_meta(rng, {}, nref, (H, W), None)
+        meta["experiment"]["run identifier"] = rid
+        stored = 8e6 + np.arange(nref, dtype=float)
+        ref = tmp / "ref.rtdc"
+        with dclab.RTDCWriter(ref, mode="reset") as hw:
+            hw.store_metadata(meta)
+            hw.store_feature(fx, stored)
+            hw.store_feature("userdef2", np.arange(nref, dtype=float))
+            hw.store_basin(basin_name="b1", basin_type="file", basin_format="hdf5",
+                           basin_locs=[tmp / "o1.rtdc"], basin_map=bmap)
+    finally:
+        feat_temp.deregister_temporary_feature(fx)
+    case = {"kind": "registry", "map": kind, "n_origin": n1, "n_ref": nref}
+    order = int(rng.integers(0, 3))
+    dclab.register_temporary_feature(fy)
+    try:
+        with dclab.new_dataset(ref) as ds:
+            if order != 2:
+                # something is read while the stored feature's name is unknown
+                _ = np.asarray(ds["userdef2"][:])
+                _ = "deform" in ds
+                _ = list(ds.features_innate)
+            feat_temp.deregister_temporary_feature(fy)
+            dclab.register_temporary_feature(fx)
+            try:
+                got_in = fx in ds
+                ctx.check("c07.available", got_in, dict(case, feature=fx),
+                          message="stored user-defined feature not offered after registration")
+                if got_in:
+                    compare_access(ctx, ds, fx, stored, rng,
+                                   dict(case, note="stored in the referrer, also in the basin"))
+                ctx.count("registry_histories")
+            finally:
+                feat_temp.deregister_temporary_feature(fx)
+    finally:
+        if dfn.scalar_feature_exists(fy):
+            feat_temp.deregister_temporary_feature(fy)
+    return case, True
+
+
 def run_relocate(ctx, idx, rng, tmp):
     import dclab
     n = int(rng.integers(3, 25))
@@ -512,7 +575,10 @@ def run(spec, ctx):
             if r < 5:
                 case, nt = run_chain(ctx, idx, rng, tmp)
             elif r < 9:
-                case, nt = run_explicit(ctx, idx, rng, tmp)
+                if idx % 20 == 7:
+                    case, nt = run_registry(ctx, idx, rng, tmp)
+                else:
+                    case, nt = run_explicit(ctx, idx, rng, tmp)
             else:
                 case, nt = run_relocate(ctx, idx, rng, tmp)
             ctx.count(f"cases[{case['kind']}]")
